@@ -84,6 +84,8 @@ def _make(minlen, maxlen, idx):
         lc = List(CInt)
         ls = List(String(maxlen=3))
         ll = List(List(Int, maxlen=3), maxlen=4)
+        # a NESTED declared default (every instance gets its own inner lists)
+        lld = List(List(Int, maxlen=3), [[1, 2], [3]], maxlen=4)
         lk = List(Checked)
         ln = List(Instance(Item))
         di = Dict(Str, Int)
